@@ -198,6 +198,22 @@ func runClient(s ClientScript, v *vt.V) {
 						}
 					}
 				}
+				// an "upload id" inside the view's own repository whose tail names another route: the last
+				// two path elements decide what a server takes a path for, so the commit's PUT would store a
+				// manifest in the repository <prefix>/x/blobs/uploads/b - not the one the call is about
+				for _, form := range []string{"/v2/" + p + "/x/blobs/uploads/b/manifests/evil", "http://" + srv.Host + "/v2/" + p + "/x/blobs/uploads/b/manifests/evil", "//v2/" + p + "/x/blobs/uploads/./b/manifests/evil"} {
+					for _, offset := range []int64{0, -1} {
+						if w2, err := view.PushBlobChunkedResume(ctx, "x", form, offset, 0); err == nil {
+							w2.Write(viaView)
+							w2.Commit(digest.FromBytes(viaView))
+							w2.Close()
+						}
+					}
+				}
+				if _, err := mem.ResolveTag(ctx, p+"/x/blobs/uploads/b", "evil"); err == nil {
+					v.Failf("upload-id-acts-elsewhere", "Sub(client,%q): resuming, through the view's repository x, an \"upload id\" that spells /v2/%s/x/blobs/uploads/b/manifests/evil and committing stored a tagged manifest in repository %s/x/blobs/uploads/b: the operation on x acted on another repository", p, p, p)
+					return
+				}
 			}
 		case "Chunked":
 			if w, err := view.PushBlobChunked(ctx, c.Repo, 0); err == nil {
@@ -236,7 +252,7 @@ func runClient(s ClientScript, v *vt.V) {
 var propClient = &vt.Prop[ClientScript]{
 	ID:   "C13",
 	Name: "SubOverClientConfinement",
-	Rule: "the view is laid over an ociclient talking (in-memory HTTP) to an ociserver over ocimem; the backend holds siblings outside the prefix (other, other/blah, <prefix>ey/x, <prefix> itself, the prefix's first element, zz) with a secret blob and a tagged manifest, and one repository inside; 1-6 calls (reads, deletes, pushes, mounts in both directions, chunked uploads, tag listings, and resuming - at offset 0 and at -1 - an upload id obtained through the view after rewriting it to name a repository outside, spelled plainly or with //, /./, /../ segments; or replacing it by the URL of a manifest or blob outside; half of the servers sit behind a path-cleaning ServeMux) use names that contain URL syntax ('?', '#', '&', '=', percent escapes, injected query parameters such as mount= and from=, fragments that cut the path short) besides dot segments and well-formed names; oracle = the view's repository listing, run twice (sometimes after a run that stopped at the first item), is each time the backend's restricted to the prefix; no read returns the outside content, the outside content never becomes readable inside the view, and everything outside the prefix is unchanged afterwards; non-trivial = some name contains URL syntax; distinct = (prefix, calls)",
+	Rule: "the view is laid over an ociclient talking (in-memory HTTP) to an ociserver over ocimem; the backend holds siblings outside the prefix (other, other/blah, <prefix>ey/x, <prefix> itself, the prefix's first element, zz) with a secret blob and a tagged manifest, and one repository inside; 1-6 calls (reads, deletes, pushes, mounts in both directions, chunked uploads, tag listings, and resuming - at offset 0 and at -1 - an upload id obtained through the view after rewriting it to name a repository outside, spelled plainly or with //, /./, /../ segments; or replacing it by the URL of a manifest or blob outside, or by an upload location of the view's own repository with a manifest route appended; half of the servers sit behind a path-cleaning ServeMux) use names that contain URL syntax ('?', '#', '&', '=', percent escapes, injected query parameters such as mount= and from=, fragments that cut the path short) besides dot segments and well-formed names; oracle = the view's repository listing, run twice (sometimes after a run that stopped at the first item), is each time the backend's restricted to the prefix; no read returns the outside content, the outside content never becomes readable inside the view, and everything outside the prefix is unchanged afterwards; non-trivial = some name contains URL syntax; distinct = (prefix, calls)",
 	Gen: func(t *rapid.T) ClientScript {
 		s := ClientScript{Prefix: rapid.SampledFrom([]string{"p", "foo", "foo/bar"}).Draw(t, "prefix"), Nested: rapid.IntRange(0, 3).Draw(t, "nested") == 0, Mux: rapid.Bool().Draw(t, "mux")}
 		sd := digest.FromBytes([]byte("content that exists only outside the prefix")).String()
